@@ -32,77 +32,91 @@ func runC14(w *World, r *Report, tier string) {
 	r.Anchor("xmpp.authSASL")
 	r.Anchor("xmpp.authPlain")
 
-	calls := w.callsIn(sasl, "xmpp.authPlain")
+	calls := w.callsInH(sasl, "xmpp.authPlain")
 	if len(calls) != 1 {
 		r.Undecided("O1", "xmpp.authSASL→authPlain", w.pos(sasl.Pos()), fmt.Sprintf("expected one call of authPlain, found %d", len(calls)))
 		return
 	}
 	ap := calls[0].(*ssa.Call)
-	mech := ap.Call.Args[2]
 	isAP := func(in ssa.Instruction) bool { return in == ssa.Instruction(ap) }
 
-	// O1: provenance of mech
-	var cands []ssa.Value
-	var phi *ssa.Phi
-	if p, ok := mech.(*ssa.Phi); ok {
-		phi = p
-		cands = p.Edges
-	} else {
-		cands = []ssa.Value{mech}
+	// O1 / O2 (path-based; helpers are walked through)
+	credP := sasl.Params[4]
+	featP := sasl.Params[2]
+	isCredMechs := func(nfv string) bool {
+		return strings.HasSuffix(nfv, ".mechanisms") && (strings.Contains(nfv, "param:"+credP.Name()) || strings.Contains(nfv, "alloc:"+credP.Name()))
 	}
-	loops := findRangeLoops(sasl)
-	okProv := true
-	detail := ""
-	nElem := 0
-	for i, c := range cands {
-		if s, isS := stringConst(c); isS {
-			if s != "" {
-				okProv = false
-				detail = "a constant mechanism name " + s + " can be chosen without consulting the server's list"
-			}
-			continue
+	isAdvertised := func(nfv string) bool {
+		return strings.HasSuffix(nfv, ".Mechanisms.Mechanism") && (strings.Contains(nfv, "param:"+featP.Name()) || strings.Contains(nfv, "alloc:"+featP.Name()))
+	}
+	switchConsts := map[string]bool{}
+	badProv, badDisp := "", ""
+	nReach := 0
+	errW := walkPaths(entryLoc(sasl), isAP, nil, 50000, func(path []ssa.Instruction, end pathEnd) {
+		if end == endCycle || !isAP(path[len(path)-1]) {
+			return
 		}
-		// c must be a range element of credential.mechanisms
-		u, ok := c.(*ssa.UnOp)
+		nReach++
+		idx := len(path) - 1
+		mech := rvI(ap.Call.Args[2], idx)
+		mech = valueOnPath(mech, path)
+		if s, isS := stringConst(mech); isS {
+			badProv = fmt.Sprintf("authPlain can be reached with the constant mechanism %q, chosen without consulting the server's list", s)
+			return
+		}
+		u, ok := mech.(*ssa.UnOp)
 		var ia *ssa.IndexAddr
 		if ok {
 			ia, _ = u.X.(*ssa.IndexAddr)
 		}
-		isRangeElem := false
-		if ia != nil {
-			for _, l := range loops {
-				if ia.Index == l.idx && fieldNames(fieldPath(ia.X)) == "mechanisms" {
-					isRangeElem = true
-				}
-			}
+		if ia == nil || !isCredMechs(w.nfOn(ia.X, path)) {
+			badProv = "the mechanism chosen is not an element of the credential's mechanism list: " + w.nfOn(mech, path)
+			return
 		}
-		if !isRangeElem {
-			okProv = false
-			detail = "the mechanism chosen is not an element of the credential's mechanism list: " + describe(w, c)
-			continue
-		}
-		nElem++
-		// the phi edge for c is only reachable through isSupportedMech(c, f.Mechanisms.Mechanism) == true
-		gate := edgesAsserting(sasl, func(cv ssa.Value, truth bool) bool {
-			call, _ := callResult(cv)
+		supported := pathAsserts(path, func(c ssa.Value, truth bool) bool {
+			call, _ := callResult(c)
 			if call == nil || !truth || w.callKey(call) != "xmpp.isSupportedMech" {
 				return false
 			}
-			return call.Call.Args[0] == c && strings.HasSuffix(fieldNames(fieldPath(call.Call.Args[1])), "Mechanisms.Mechanism")
+			a0 := valueOnPath(rvI(call.Call.Args[0], curEdgeIdx), path)
+			return a0 == mech && isAdvertised(w.nfOn(call.Call.Args[1], path))
 		})
-		if phi != nil {
-			pred := phi.Block().Preds[i]
-			if len(gate) == 0 || reachable(entryLoc(sasl), func(in ssa.Instruction) bool { return in.Block() == pred && in == pred.Instrs[len(pred.Instrs)-1] }, nil, gate) {
-				okProv = false
-				detail = "a credential mechanism can be chosen without isSupportedMech(mechanism, advertised list) having returned true"
-			}
-		} else if len(gate) == 0 || reachable(entryLoc(sasl), isAP, nil, gate) {
-			okProv = false
-			detail = "authPlain is reachable without isSupportedMech(mechanism, advertised list) having returned true"
+		if !supported {
+			badProv = "a credential mechanism can be chosen without isSupportedMech(mechanism, advertised list) having returned true for it"
 		}
+		// dispatch: the path asserts mech == one constant
+		got := ""
+		pathEdges(path, func(b *ssa.BasicBlock, succ int) {
+			c, truth, ok := edgeAssertion(b, succ)
+			if !ok {
+				return
+			}
+			bo, isB := c.(*ssa.BinOp)
+			if !isB || (bo.Op != token.EQL && bo.Op != token.NEQ) {
+				return
+			}
+			if (bo.Op == token.EQL) != truth {
+				return
+			}
+			x, y := valueOnPath(rvI(bo.X, curEdgeIdx), path), valueOnPath(rvI(bo.Y, curEdgeIdx), path)
+			if s, isS := stringConst(y); isS && x == mech {
+				got = s
+			} else if s, isS := stringConst(x); isS && y == mech {
+				got = s
+			}
+		})
+		if got == "" {
+			badDisp = "authPlain is reachable without the chosen mechanism being equal to one of the dispatch constants (e.g. with an unknown mechanism)"
+		} else {
+			switchConsts[got] = true
+		}
+	})
+	if errW != nil {
+		r.Undecided("O1", "xmpp.authSASL→authPlain#mech", w.ipos(ap), errW.Error())
+	} else {
+		r.Check(badProv == "" && nReach > 0, "O1", "xmpp.authSASL→authPlain#mech", w.ipos(ap), badProv, fmt.Sprintf("%d path(s): mech ∈ credential.mechanisms, selected on the true edge of isSupportedMech(mech, f.Mechanisms.Mechanism)", nReach))
+		r.Check(badDisp == "" && nReach > 0, "O2", "xmpp.authSASL#dispatch", w.ipos(ap), badDisp, fmt.Sprintf("reachable only through mech == %v", keys(switchConsts)))
 	}
-	r.Check(okProv && nElem > 0, "O1", "xmpp.authSASL→authPlain#mech", w.ipos(ap), detail, "mech ∈ credential.mechanisms, selected on the true edge of isSupportedMech(mech, f.Mechanisms.Mechanism)")
-	// order of preference: the loop breaks at the first match (ascending over the credential's list)
 	// isSupportedMech
 	{
 		eq := edgesAsserting(supp, func(cv ssa.Value, truth bool) bool {
@@ -110,14 +124,14 @@ func runC14(w *World, r *Report, tier string) {
 			if !ok || bo.Op != token.EQL && bo.Op != token.NEQ {
 				return false
 			}
-			isP0 := func(v ssa.Value) bool { return v == ssa.Value(supp.Params[0]) }
+			isP0 := func(v ssa.Value) bool { return origin(v) == ssa.Value(supp.Params[0]) }
 			isElem := func(v ssa.Value) bool {
 				u, ok := v.(*ssa.UnOp)
 				if !ok {
 					return false
 				}
 				ia, ok := u.X.(*ssa.IndexAddr)
-				return ok && ia.X == ssa.Value(supp.Params[1])
+				return ok && origin(ia.X) == ssa.Value(supp.Params[1])
 			}
 			if !((isP0(bo.X) && isElem(bo.Y)) || (isP0(bo.Y) && isElem(bo.X))) {
 				return false
@@ -126,14 +140,13 @@ func runC14(w *World, r *Report, tier string) {
 		})
 		retTrue := func(in ssa.Instruction) bool {
 			ret, ok := in.(*ssa.Return)
-			if !ok {
+			if !ok || in.Parent() != supp {
 				return false
 			}
 			b, isC := boolConst(ret.Results[0])
 			return !isC || b
 		}
 		r.Check(len(eq) > 0 && !reachable(entryLoc(supp), retTrue, nil, eq), "O1", "xmpp.isSupportedMech", w.pos(supp.Pos()), "isSupportedMech can return true without the mechanism being equal to an element of the list", "returns true only from mech == list[i]")
-		// and it does return true when equal: the equality edge leads to return true
 		okT := false
 		for e := range eq {
 			if !reachable(Loc{e.From.Succs[e.Succ], 0}, func(in ssa.Instruction) bool {
@@ -159,7 +172,7 @@ func runC14(w *World, r *Report, tier string) {
 				continue
 			}
 			nStores++
-			okSrc := w.isResultOf(a.Val, 0, "xmpp.Session.extractStreamFeatures")
+			okSrc := w.isResultOf(origin(a.Val), 0, "xmpp.Session.extractStreamFeatures")
 			r.Check(okSrc, "O1", w.funcKey(a.Fn)+"#store:Features", w.ipos(a.Instr), "the session's stream features are assigned from something other than a freshly decoded value", "Features = extractStreamFeatures()")
 		}
 		if nStores < 2 {
@@ -167,38 +180,25 @@ func runC14(w *World, r *Report, tier string) {
 		}
 		for _, k := range []string{"xmpp.(*Session).extractStreamFeatures", "xmpp.(*Session).bind", "xmpp.(*Session).rfc3921Session", "xmpp.(*Session).startTlsIfSupported"} {
 			fn := w.Func(k)
-			for _, c := range w.callsIn(fn, "encoding/xml.Decoder.Decode", "encoding/xml.Decoder.DecodeElement") {
+			for _, c := range w.callsInH(fn, "encoding/xml.Decoder.Decode", "encoding/xml.Decoder.DecodeElement") {
 				r.Check(freshDecodeTarget(c), "O1", k+"#decode-target", w.ipos(c), "a reply is decoded into a value that is not a fresh zero value: encoding/xml does not clear its target and appends to slices, so state of an earlier stream leaks into this one", "decodes into a fresh local")
 			}
 		}
 	}
 
 	// O2 capability table
-	switchConsts := map[string]bool{}
-	swEdges := edgesAsserting(sasl, func(cv ssa.Value, truth bool) bool {
-		bo, ok := cv.(*ssa.BinOp)
-		if !ok || bo.Op != token.EQL || !truth || bo.X != mech {
-			return false
-		}
-		if s, ok := stringConst(bo.Y); ok {
-			switchConsts[s] = true
-			return true
-		}
-		return false
-	})
-	r.Check(len(swEdges) > 0 && !reachable(entryLoc(sasl), isAP, nil, swEdges), "O2", "xmpp.authSASL#dispatch", w.ipos(ap), "authPlain is reachable without the chosen mechanism being equal to one of the dispatch constants (e.g. with an empty mechanism)", fmt.Sprintf("reachable only through mech == %v", keys(switchConsts)))
 	credConsts := map[string]bool{}
 	for _, k := range []string{"xmpp.Password", "xmpp.OAuthToken"} {
 		f := w.Func(k)
 		fields := map[string]ssa.Value{}
-		allInstrs(f, func(in ssa.Instruction) {
+		allInstrsH(f, func(in ssa.Instruction) {
 			if st, ok := in.(*ssa.Store); ok {
 				if fa, ok := st.Addr.(*ssa.FieldAddr); ok {
 					fields[fieldOfAddr(fa).Name()] = st.Val
 				}
 			}
 		})
-		elems := sliceLitElems(fields["mechanisms"])
+		elems := sliceLitElems(origin(fields["mechanisms"]))
 		if len(elems) == 0 {
 			r.Undecided("O2", k+"#mechanisms", w.pos(f.Pos()), "the credential's mechanism list is not a literal")
 			continue
@@ -215,7 +215,6 @@ func runC14(w *World, r *Report, tier string) {
 		}
 		want := map[string]string{"xmpp.Password": "PLAIN", "xmpp.OAuthToken": "X-OAUTH2"}[k]
 		r.Check(len(ms) == 1 && ms[0] == want, "O2", k+"#mechanisms", w.pos(f.Pos()), fmt.Sprintf("credential kind supports %v, the statement demands %s", ms, want), "mechanisms = ["+want+"]")
-		// secret is the parameter
 		r.Check(isParamOf(fields["secret"], f), "O2", k+"#secret", w.pos(f.Pos()), "the credential's secret is not the value given by the application", "secret = parameter")
 	}
 	r.Check(fmt.Sprint(keys(switchConsts)) == fmt.Sprint(keys(credConsts)), "O2", "xmpp.authSASL#table-agreement", w.ipos(ap), fmt.Sprintf("dispatch constants %v differ from the credential constructors' constants %v", keys(switchConsts), keys(credConsts)), fmt.Sprintf("%v on both sides", keys(switchConsts)))
@@ -225,7 +224,7 @@ func runC14(w *World, r *Report, tier string) {
 		bad := ""
 		n := 0
 		isWrite := w.isCallTo(sendWriteKeys...)
-		walkPaths(entryLoc(sasl), isAP, nil, 20000, func(path []ssa.Instruction, end pathEnd) {
+		walkPaths(entryLoc(sasl), isAP, nil, 50000, func(path []ssa.Instruction, end pathEnd) {
 			last := path[len(path)-1]
 			if isAP(last) || end == endCycle {
 				return
@@ -240,7 +239,7 @@ func runC14(w *World, r *Report, tier string) {
 				bad = "something is written although no common mechanism exists"
 			}
 			okPerm := false
-			if mi, ok := ret.Results[0].(*ssa.MakeInterface); ok {
+			if mi, ok := rvI(ret.Results[0], len(path)-1).(*ssa.MakeInterface); ok {
 				if c, ok := mi.X.(*ssa.Call); ok && w.callKey(c) == "xmpp.NewConnError" {
 					if b, isC := boolConst(c.Call.Args[1]); isC && b {
 						okPerm = true
@@ -252,32 +251,36 @@ func runC14(w *World, r *Report, tier string) {
 			}
 		})
 		r.Check(bad == "" && n > 0, "O3", "xmpp.authSASL#no-match", w.pos(sasl.Pos()), bad, fmt.Sprintf("%d no-match path(s): no write, NewConnError(_, true)", n))
-		// the value returned on a match is authPlain's result
-		okRet := false
-		for _, rf := range *ap.Referrers() {
-			if ret, ok := rf.(*ssa.Return); ok && ret.Results[0] == ssa.Value(ap) {
-				okRet = true
+		// what authSASL returns after calling authPlain is authPlain's result
+		okRet := true
+		nAfter := 0
+		walkPaths(after(ap), nil, nil, 2000, func(path []ssa.Instruction, end pathEnd) {
+			if ret, ok := path[len(path)-1].(*ssa.Return); ok && ret.Parent() == sasl {
+				nAfter++
+				if rvI(ret.Results[0], len(path)-1) != ssa.Value(ap) {
+					okRet = false
+				}
 			}
-		}
-		r.Check(okRet, "O3", "xmpp.authSASL#result", w.ipos(ap), "the result of authPlain is not what authSASL returns", "returns authPlain(...)")
+		})
+		r.Check(okRet && nAfter > 0, "O3", "xmpp.authSASL#result", w.ipos(ap), "the result of authPlain is not what authSASL returns", "returns authPlain(...)")
 	}
 
-	// O4 payload
+	// O4 payload (helpers resolved through origin: an extracted helper has one call site)
 	{
-		marsh := w.callsIn(plain, "encoding/xml.Marshal")
+		marsh := w.callsInH(plain, "encoding/xml.Marshal")
 		if len(marsh) != 1 {
-			r.Undecided("O4", "xmpp.authPlain#element", w.pos(plain.Pos()), "expected one xml.Marshal")
+			r.Undecided("O4", "xmpp.authPlain#element", w.pos(plain.Pos()), fmt.Sprintf("expected one xml.Marshal, found %d", len(marsh)))
 		} else {
 			mc := marsh[0].(*ssa.Call)
-			arg := mc.Call.Args[0]
+			arg := origin(mc.Call.Args[0])
 			if mi, ok := arg.(*ssa.MakeInterface); ok {
-				arg = mi.X
+				arg = origin(mi.X)
 			}
 			fields, al := complitFields(arg)
 			if al == nil || !strings.HasSuffix(w.typeStr(al.Type()), "stanza.SASLAuth") {
 				r.Undecided("O4", "xmpp.authPlain#element", w.ipos(mc), "the marshalled value is not a SASLAuth literal")
 			} else {
-				r.Check(fields["Mechanism"] == ssa.Value(plain.Params[2]), "O4", "xmpp.authPlain#mechanism", w.ipos(al), "the element does not name the chosen mechanism", "Mechanism = mech parameter")
+				r.Check(origin(fields["Mechanism"]) == ssa.Value(plain.Params[2]), "O4", "xmpp.authPlain#mechanism", w.ipos(al), "the element does not name the chosen mechanism", "Mechanism = mech parameter")
 				enc, src, why := encodedBy(w, plain, fields["Value"])
 				if src == nil {
 					r.Undecided("O4", "xmpp.authPlain#encoding", w.ipos(al), why)
@@ -288,48 +291,49 @@ func runC14(w *World, r *Report, tier string) {
 						r.Undecided("O4", "xmpp.authPlain#payload", w.ipos(al), "the encoded bytes are not []byte(string)")
 					} else {
 						as := mergeConstAtoms(strAtoms(s))
-						ok := len(as) == 4 && as[0].IsC && as[0].Const == "\x00" && as[1].Val == ssa.Value(plain.Params[3]) && as[2].IsC && as[2].Const == "\x00" && as[3].Val == ssa.Value(plain.Params[4])
-						r.Check(ok, "O4", "xmpp.authPlain#payload", w.ipos(al), "the authentication payload is "+atomsString(w, as)+`, not ["\x00", user, "\x00", secret]`, atomsString(w, as))
+						ok := len(as) == 4 && as[0].IsC && as[0].Const == "\x00" && origin(as[1].Val) == ssa.Value(plain.Params[3]) && as[2].IsC && as[2].Const == "\x00" && origin(as[3].Val) == ssa.Value(plain.Params[4])
+						r.Check(ok, "O4", "xmpp.authPlain#payload", w.ipos(al), "the authentication payload is "+atomsString(w, as)+`, not ["\x00", user, "\x00", secret]`, `["\x00", user, "\x00", secret]`)
 					}
 				}
 			}
 			// exactly one write of the marshalled bytes, on the socket parameter
 			nW := 0
 			okW := true
-			allInstrs(plain, func(in ssa.Instruction) {
+			allInstrsH(plain, func(in ssa.Instruction) {
 				c := asCall(in)
 				if c == nil || !w.isCallTo(sendWriteKeys...)(in) {
 					return
 				}
 				nW++
-				a := c.Common().Args[len(c.Common().Args)-1]
+				a := origin(c.Common().Args[len(c.Common().Args)-1])
 				ex, isEx := a.(*ssa.Extract)
 				if !isEx || ex.Tuple != ssa.Value(mc) || ex.Index != 0 {
 					okW = false
 				}
-				if !c.Common().IsInvoke() || c.Common().Value != ssa.Value(plain.Params[0]) {
+				if !c.Common().IsInvoke() || origin(c.Common().Value) != ssa.Value(plain.Params[0]) {
 					okW = false
 				}
 			})
 			r.Check(nW == 1 && okW, "O4", "xmpp.authPlain#write", w.pos(plain.Pos()), fmt.Sprintf("%d write(s); the marshalled <auth/> must be written exactly once on the socket", nW), "one socket.Write(marshalled element)")
 		}
 		// call sites
-		r.Check(ap.Call.Args[3] == ssa.Value(sasl.Params[3]) && fieldNames(fieldPath(ap.Call.Args[4])) == "secret", "O4", "xmpp.authSASL→authPlain#args", w.ipos(ap), "authPlain is not given (user, credential.secret)", "authPlain(…, user, credential.secret)")
+		r.Check(origin(ap.Call.Args[3]) == ssa.Value(sasl.Params[3]) && strings.HasSuffix(w.nf(ap.Call.Args[4], 0), ".secret") && isCredSecret(w, ap.Call.Args[4], sasl), "O4", "xmpp.authSASL→authPlain#args", w.ipos(ap), "authPlain is not given (user, credential.secret)", "authPlain(…, user, credential.secret)")
 		auth := w.Func("xmpp.(*Session).auth")
-		sc := w.callsIn(auth, "xmpp.authSASL")
+		sc := w.callsInH(auth, "xmpp.authSASL")
 		if len(sc) != 1 {
 			r.Undecided("O4", "xmpp.(*Session).auth→authSASL", w.pos(auth.Pos()), "expected one authSASL call")
 		} else {
 			a := sc[0].Common().Args
-			r.Check(fieldNames(fieldPath(a[3])) == "parsedJid.Node" && fieldNames(fieldPath(a[4])) == "Credential" && fieldNames(fieldPath(a[2])) == "Features", "O4", "xmpp.(*Session).auth→authSASL#args", w.ipos(sc[0]), "authSASL is not given (session features, local part of the configured JID, configured credential): "+fieldNames(fieldPath(a[2]))+", "+fieldNames(fieldPath(a[3]))+", "+fieldNames(fieldPath(a[4])), "authSASL(…, s.Features, o.parsedJid.Node, o.Credential)")
+			f2, f3, f4 := fieldNames(fieldPath(origin(a[2]))), fieldNames(fieldPath(origin(a[3]))), fieldNames(fieldPath(origin(a[4])))
+			r.Check(f3 == "parsedJid.Node" && f4 == "Credential" && f2 == "Features", "O4", "xmpp.(*Session).auth→authSASL#args", w.ipos(sc[0]), "authSASL is not given (session features, local part of the configured JID, configured credential): "+f2+", "+f3+", "+f4, "authSASL(…, s.Features, o.parsedJid.Node, o.Credential)")
 		}
 	}
 
-	// O5 reply
+	// O5 reply (path-based from the entry of authPlain, helpers walked through)
 	{
-		nps := w.callsIn(plain, "stanza.NextPacket")
+		nps := w.callsInH(plain, "stanza.NextPacket")
 		if len(nps) != 1 {
-			r.Undecided("O5", "xmpp.authPlain#reply", w.pos(plain.Pos()), "expected one NextPacket")
+			r.Undecided("O5", "xmpp.authPlain#reply", w.pos(plain.Pos()), fmt.Sprintf("expected one NextPacket, found %d", len(nps)))
 			return
 		}
 		np := nps[0].(*ssa.Call)
@@ -343,24 +347,39 @@ func runC14(w *World, r *Report, tier string) {
 				}
 			}
 		}
+		isNP := func(in ssa.Instruction) bool { return in == ssa.Instruction(np) }
+		isWr := w.isCallTo(sendWriteKeys...)
 		bad := ""
 		nNil, nFail, nOther := 0, 0, 0
-		walkPaths(after(np), nil, nil, 20000, func(path []ssa.Instruction, end pathEnd) {
+		walkPaths(entryLoc(plain), nil, nil, 50000, func(path []ssa.Instruction, end pathEnd) {
 			ret, ok := path[len(path)-1].(*ssa.Return)
-			if !ok {
-				bad = "a reply path does not return"
+			if !ok || ret.Parent() != plain {
+				if !ok {
+					bad = "a path of authPlain does not return"
+				}
 				return
 			}
-			res := ret.Results[0]
+			iNP := indexOn(path, isNP)
+			if iNP < 0 {
+				return // failed before the reply was read: an error return (C08/C03 judge the write)
+			}
+			if iW := indexOn(path, isWr); iW < 0 || iW > iNP {
+				bad = "the reply is read before <auth/> has been written"
+			}
+			res := rvI(ret.Results[0], len(path)-1)
 			mayBeNil := isNilConst(res) || pathAsserts(path, func(c ssa.Value, truth bool) bool { return assertsNil(c, truth, res) })
-			isSucc := pathAsserts(path, func(c ssa.Value, truth bool) bool {
-				T, ok := typeAssertOK(c, pkt)
-				return ok && truth && w.typeStr(T) == "stanza.SASLSuccess"
-			})
-			isFail := pathAsserts(path, func(c ssa.Value, truth bool) bool {
-				T, ok := typeAssertOK(c, pkt)
-				return ok && truth && w.typeStr(T) == "stanza.SASLFailure"
-			})
+			typed := func(name string) bool {
+				return pathAsserts(path, func(c ssa.Value, truth bool) bool {
+					T, ok := typeAssertOK(c, nil)
+					if !ok || !truth || w.typeStr(T) != name {
+						return false
+					}
+					ex := c.(*ssa.Extract)
+					ta := ex.Tuple.(*ssa.TypeAssert)
+					return rvAny(ta.X) == pkt || ta.X == pkt
+				})
+			}
+			isSucc, isFail := typed("stanza.SASLSuccess"), typed("stanza.SASLFailure")
 			readOK := perr != nil && pathAsserts(path, func(c ssa.Value, truth bool) bool { return assertsNil(c, truth, perr) })
 			switch {
 			case mayBeNil:
@@ -383,7 +402,6 @@ func runC14(w *World, r *Report, tier string) {
 				}
 			default:
 				nOther++
-				// non-nil by construction or asserted
 				if _, isCall := res.(*ssa.Call); !isCall && !pathAsserts(path, func(c ssa.Value, truth bool) bool { return assertsNonNil(c, truth, res) }) {
 					if _, isMI := res.(*ssa.MakeInterface); !isMI {
 						bad = "a reply other than <success/> may return a nil error (return at " + w.ipos(ret) + ")"
@@ -394,14 +412,15 @@ func runC14(w *World, r *Report, tier string) {
 				bad = "<success/> is not reported as success"
 			}
 		})
-		r.Check(bad == "" && nNil > 0 && nFail > 0 && nOther > 0, "O5", "xmpp.authPlain#reply", w.ipos(np), bad+fmt.Sprintf(" (nil paths %d, failure paths %d, other %d)", nNil, nFail, nOther), fmt.Sprintf("%d nil path(s) all through SASLSuccess; %d <failure/> path(s) permanent; %d other path(s) non-nil", nNil, nFail, nOther))
-		// the reply is read after the write
-		ws := w.callsIn(plain, sendWriteKeys...)
-		if len(ws) == 1 {
-			ok, _ := mustPass(entryLoc(plain), func(in ssa.Instruction) bool { return in == ssa.Instruction(np) }, func(in ssa.Instruction) bool { return in == ws[0].(ssa.Instruction) }, nil)
-			r.Check(ok, "O5", "xmpp.authPlain#write-before-read", w.ipos(np), "the reply is read before <auth/> has been written", "write dominates read")
-		}
+		r.Check(bad == "" && nNil > 0 && nFail > 0 && nOther > 0, "O5", "xmpp.authPlain#reply", w.ipos(np), bad+fmt.Sprintf(" (nil paths %d, failure paths %d, other %d)", nNil, nFail, nOther), fmt.Sprintf("%d nil path(s) all through SASLSuccess; %d <failure/> path(s) permanent; %d other path(s) non-nil; write before read", nNil, nFail, nOther))
 	}
+}
+
+// isCredSecret: v is the secret field of authSASL's credential parameter.
+func isCredSecret(w *World, v ssa.Value, sasl *ssa.Function) bool {
+	nfv := w.nf(v, 0)
+	p := sasl.Params[4].Name()
+	return strings.Contains(nfv, "param:"+p) || strings.Contains(nfv, "alloc:"+p)
 }
 
 func keys(m map[string]bool) []string {
